@@ -349,6 +349,30 @@ def extra_obligations(mods, tier, seed):
         out.append({"name": f"C16/exec/declared-pin/{pname}", "status": "discharged" if not prob else "sat", "backend": "enum+fwsim", "bounded": True,
                     "where": f"script '{pname}': every tone sounds on the pin its buzzer was declared with at that point of the program", "time": 0.3,
                     "replay": {"script": body, "problem": prob}, "replay_confirmed": bool(prob)})
+    # every constructor spelling declares a buzzer that stop() silences: open-ended tone, stop, state query (tone/noTone events and the
+    # printed state; the default pin is 8)
+    for cname, ctor, pin in (("no-arguments", "Buzzer()", 8), ("positional-pin", "Buzzer(7)", 7), ("keyword-pin", "Buzzer(pin=6)", 6),
+                             ("default-frequency-only", "Buzzer(default_frequency=500)", 8), ("pin-and-frequency", "Buzzer(5, 600)", 5), ("blank-in-parentheses", "Buzzer( )", 8)):
+        from progs.diff import transpile as _tr2
+        from fwsim.run import run_sketch as _run2
+        body = (f"from Reduino.Actuators import Buzzer\nfrom Reduino.Communication import SerialMonitor\nmon = SerialMonitor(9600)\nb = {ctor}\nb.play_tone(440)\nmon.write(b.get_state())\n"
+                "b.stop()\nmon.write(b.get_state())\nb.play_tone(330)\nb.stop()\n")
+        want = [f"T:{pin}:440", "S:1", f"N:{pin}", "S:0", f"T:{pin}:330", f"N:{pin}"]
+        cpp, err = _tr2(body)
+        prob = None
+        if cpp is None:
+            prob = None if "default_frequency" in ctor or " " in ctor else f"rejected: {err}"     # (a spelling the parser refuses is not a silent drop)
+        else:
+            r = _run2(cpp, passes=0)
+            if not r.get("compiled"):
+                prob = "does not compile: " + r.get("errors", "")[-200:]
+            else:
+                got = [("S:1" if e in ("S:true", "S:True") else "S:0" if e in ("S:false", "S:False") else e) for e in r["events"] if e[:2] in ("T:", "N:", "S:")]
+                if got != want:
+                    prob = f"events {got}, the program says {want}"
+        out.append({"name": f"C16/exec/constructor-spelling/{cname}", "status": "discharged" if not prob else "sat", "backend": "enum+fwsim", "bounded": True,
+                    "where": f"`b = {ctor}`: an open-ended tone sounds on pin {pin}, stop() silences it and get_state() follows", "time": 0.3,
+                    "replay": {"script": body, "problem": prob}, "replay_confirmed": bool(prob)})
     # the way an argument is WRITTEN does not matter: the same value written as a name, in parentheses, through abs()/int()/max() or as
     # arithmetic gives the same tone / delay trace (a call the statement recogniser does not match must not vanish)
     jobs = []
